@@ -12,7 +12,7 @@ import numpy as np
 
 from . import probes
 from .common import scribble, digest
-from .replay_poplayout import build, features as pl_features
+from .replay_poplayout import build, relabel, features as pl_features
 
 chi = probes.chi
 import pints  # noqa: E402
@@ -94,8 +94,11 @@ def make_prior(names):
 def replay_case(arg):
     rec, seed = arg
     fails, cnt = [], {'cases': 1}
-    key = digest(rec)
+    cfg0 = {k: v for k, v in rec.items() if not k.startswith('_')}
+    rec = dict(cfg0)
+    key = digest(cfg0)
     rng = np.random.default_rng([seed, int(key, 16) % (2 ** 31)])
+    custom_ids = relabel(rec, key)
     shim = dict(rec, fixed=[], topfull=[s for s in rec['layout'] if s[0] != 'eta'],
                 topnamesfull=rec['names'][rec['nbottom']:])
     feats = pl_features(shim)
@@ -103,7 +106,10 @@ def replay_case(arg):
         cnt['feat_' + f] = 1
 
     def fail(clause, manifestation, detail):
-        fails.append(dict(case=dict(config=rec), clause=clause, manifestation=manifestation, detail=detail, features=feats))
+        fails.append(dict(case=dict(config=cfg0), clause=clause, manifestation=manifestation, detail=detail, features=feats))
+    if custom_ids:
+        feats.append('custom_ids_not_sorted')
+        cnt['feat_custom_ids_not_sorted'] = 1
     n = rec['nbottom'] + rec['ntop']
     if rec['ntop'] == 0:
         return fails, cnt
